@@ -342,9 +342,15 @@ pub trait Language: Debug + Clone + Hash + Eq + Ord {
             prv = self.private_slots();
         }
 
+        // a slot that `m` does not map gets one fresh name for all of its occurrences.
+        let mut m = m.clone();
         let mut c = self.clone();
         for x in c.public_slot_occurrences_mut() {
-            let y = m.get(*x).unwrap_or_else(Slot::fresh);
+            let y = m.get(*x).unwrap_or_else(|| {
+                let y = Slot::fresh();
+                m.insert(*x, y);
+                y
+            });
 
             // If y collides with a private slot, we have a problem.
             if CHECKS {
